@@ -456,3 +456,66 @@ def spec_reply(v):
     if isinstance(v, list) and v and v[0] == "found":
         return ("found", v[1])
     return str(v)
+
+
+# ------------------------------------------------------------------ sessions over several scales
+SCALE_KEYS = [KEY, "second"]          # model key i  <->  SCALE_KEYS[i]
+
+
+def impl_session(R, ds, sops, strategy, name):
+    """Real ShardedFileAccessor with two identical scales.  sops: list of
+    ("s", scale index, x, y, z, payload) / ("c",).  Exceptions are caught and the
+    session continues.  Returns (outcomes, {scale index: {file: bytes}})."""
+    try:
+        with watchdog(10.0):
+            return _impl_session(R, ds, sops, strategy, name)
+    except ImplHang:
+        _note_hang(R, "session (stores and closes over two scales)", ds)
+        return [["Hang"]], {}
+
+
+def _impl_session(R, ds, sops, strategy, name):
+    import numpy as np
+    from neuroglancer_scripts import sharded_file_accessor as sfa
+    d = os.path.join(R.tmp, name)
+    info = mkinfo(ds["sizes"], ds["cs"], ds["m"], ds["s"], ds["p"], ds["ie"], ds["de"])
+    info["scales"].append(dict(json.loads(json.dumps(info["scales"][0])), key=SCALE_KEYS[1]))
+    outs = []
+    with quiet(R.tmp), np.errstate(all="ignore"):
+        kw = {} if strategy is None else {"strategy": strategy}
+        acc = sfa.ShardedFileAccessor(d, **kw)
+        acc.info = json.loads(json.dumps(info))
+        for op in sops:
+            if op[0] == "c":
+                o = outcome_of(acc.close)
+            else:
+                _, k, x, y, z, pl = op
+                o = outcome_of(acc.store_chunk, pl, SCALE_KEYS[k], bbox(ds["cs"], x, y, z))
+            outs.append(["ok", "none"] if o[0] == "ok" else o)
+        atexit.unregister(acc.close)
+    files = {}
+    for i, key in enumerate(SCALE_KEYS):
+        f = _read_dir(os.path.join(d, key))
+        if f:
+            files[i] = f
+    shutil.rmtree(d, ignore_errors=True)
+    return outs, files
+
+
+def session_request(ds, sops, orc):
+    for o in sops:
+        if o[0] == "s" and ds["de"] == "gzip":
+            orc.add_comp(o[5])
+    scales = [[i, [ds["cs"]] * 3, ds["sizes"]] for i in range(len(SCALE_KEYS))]
+    wire = [Atom("c") if o[0] == "c" else [Atom("s"), o[1], o[2], o[3], o[4], o[5]] for o in sops]
+    return ("c04_session", lambda t: [cfg_of(ds), t, scales, wire], orc, "comp")
+
+
+def parse_session_reply(rep):
+    assert rep[0] == "ok", rep
+    outs = [model_outcome(o) for o in rep[1]]
+    outs = [["ok", "none"] if o[0] == "ok" else o for o in outs]
+    files = {}
+    for k, entries in rep[2]:
+        files[k] = {n.decode(): b for n, b in entries}
+    return outs, files
